@@ -9,7 +9,7 @@ from .engine import Prop
 
 
 class SyncProp(Prop):
-    quick_cases = 60
+    quick_cases = 200
     thorough_cases = 900
     time_budget = {"quick": 150, "thorough": 1500}
     n_runs = 2
